@@ -276,6 +276,10 @@ FileStep(s, e) ==
         ELSE IF e.r.k # "ok" THEN [m |-> m, v |-> {"C02.flush"}, ooc |-> FALSE]
         ELSE [m |-> AfterFlush(m, h), v |-> {}, ooc |-> FALSE]
      [] e.op = "close" -> [m |-> DropFileHandle(m, h), v |-> {}, ooc |-> FALSE]
+     \* File::clone: a second handle on the same file with a copy of the cursor and of the pending entry changes
+     [] e.op = "clone" ->
+        IF e.r.k # "ok" THEN [m |-> m, v |-> {"C02.clone"}, ooc |-> FALSE]
+        ELSE [m |-> [m EXCEPT !.fh = [x \in DOMAIN m.fh \cup {a.as} |-> IF x = a.as THEN m.fh[h] ELSE m.fh[x]]], v |-> {}, ooc |-> FALSE]
      [] e.op = "set_created" -> [m |-> [m EXCEPT !.nodes[n].ct = Trunc10ms(a.t), !.fh[h].dirty = TRUE], v |-> {}, ooc |-> FALSE]
      [] e.op = "set_modified" -> [m |-> [m EXCEPT !.nodes[n].mt = Trunc2s(a.t), !.nodes[n].mtAlt = Trunc2s(a.t), !.fh[h].dirty = TRUE], v |-> {}, ooc |-> FALSE]
      [] e.op = "set_accessed" -> [m |-> [m EXCEPT !.nodes[n].ad = DateOf(a.t), !.fh[h].dirty = TRUE], v |-> {}, ooc |-> FALSE]
@@ -390,7 +394,7 @@ Step(s, e) ==
        sv == IF Has(e, "sv") THEN e.sv ELSE s.sv
        svok == (Has(e, "sv") \/ s.svok) /\ e.op \notin {"mount", "unmount", "dropfs", "abandon"}
        os == CASE e.op \in {"create_file", "create_dir", "open_file", "open_dir", "remove", "rename", "list"} -> NsStep(s, e, Dp)
-               [] e.op \in {"read", "read_all", "write", "write_all", "seek", "truncate", "flush", "close",
+               [] e.op \in {"read", "read_all", "write", "write_all", "seek", "truncate", "flush", "close", "clone",
                              "set_created", "set_modified", "set_accessed", "extents"} -> FileStep(s, e)
                [] e.op = "closedir" -> [m |-> DropDirHandle(s.m, e.a.h), v |-> {}, ooc |-> FALSE]
                [] e.op = "close_all" -> [m |-> [s.m EXCEPT !.fh = <<>>, !.dh = <<>>], v |-> {}, ooc |-> FALSE]
